@@ -25,6 +25,19 @@ struct Elem {
   Tracked<uint64_t> a;
   Tracked<uint64_t> b;
   int busy = 0;  // harness owner mark (plain; only touched while holding the baton)
+  Elem() = default;
+  Elem(const Elem& o) { *this = o; }
+  // the assigning push/pop overloads move values with operator=: keep the payload under the hb check
+  Elem& operator=(const Elem& o) {
+    if (busy) dsched::fail("exclusive-access", "assignment into a slot that is in use");
+    busy = 1;
+    id.set(o.id.get("elem.id"), "elem.id");
+    a.set(o.a.get("elem.a"), "elem.a");
+    dsched::point();
+    b.set(o.b.get("elem.b"), "elem.b");
+    busy = 0;
+    return *this;
+  }
 };
 using Queue = babylon::ConcurrentBoundedQueue<Elem>;
 using Iter = Queue::Iterator;
@@ -167,11 +180,9 @@ void do_push_ops(int thread, const ThreadPlan& plan) {
         // the assigning overload: value constructed outside, moved in by operator=
         Elem v;
         uint64_t id = make_id(thread, seq++);
-        v.id.v = id; v.a.v = id * 3 + 1; v.b.v = ~id;
+        fill(v, id);
         rec_push(id, 0);
-        dispatch3(op.conc, wait, op.wake, [&](auto C, auto Wt, auto K) {
-          q.template push<C(), Wt(), K()>([&](Elem& e) { fill(e, id); (void)v; });
-        });
+        dispatch3(op.conc, wait, op.wake, [&](auto C, auto Wt, auto K) { q.template push<C(), Wt(), K()>(v); });
         done = 1;
         break;
       }
@@ -262,12 +273,18 @@ void do_pop_ops(int thread, const ThreadPlan& plan) {
     auto rec_pop = [&](uint64_t id, int pos) { W->popped.push_back(Event{id, rec, pos}); };
     switch (op.kind) {
       case O_POP:
-      case O_POP_VALUE:
         dispatch3(op.conc, wait, op.wake, [&](auto C, auto Wt, auto K) {
           q.template pop<C(), Wt(), K()>([&](Elem& e) { rec_pop(drain(e), 0); });
         });
         done = 1;
         break;
+      case O_POP_VALUE: {
+        Elem out;
+        dispatch3(op.conc, wait, op.wake, [&](auto C, auto Wt, auto K) { q.template pop<C(), Wt(), K()>(out); });
+        rec_pop(drain(out), 0);
+        done = 1;
+        break;
+      }
       case O_TRY_POP: {
         bool ok = false;
         dispatch2(op.conc, op.wake, [&](auto C, auto K) {
@@ -468,6 +485,56 @@ void run_case(Chooser& c) {
   if ((int64_t)remaining != world.model_size)
     dsched::fail("conservation", "final drain found %zu elements, model expects %ld", remaining, (long)world.model_size);
   if (q.size() != 0) dsched::fail("conservation", "size() == %zu after the final drain", q.size());
+
+  // quiescent epilogue: the drained queue behaves like a new one (size/clear/reserve/swap, FIFO)
+  {
+    size_t k = (size_t)c.range(0, (int)world.cap);
+    for (size_t i = 0; i < k; i++) q.push<false, false, false>([&](Elem& e) { fill(e, 0x7000000 + i); });
+    if (q.size() != k) dsched::fail("sequential", "size() == %zu after %zu pushes into an empty queue", q.size(), k);
+    uint8_t how = (uint8_t)c.below(4);
+    if (how == 1) {
+      q.clear();
+      if (q.size() != 0) dsched::fail("sequential", "size() == %zu after clear()", q.size());
+      bool got = q.try_pop<false, false>([&](Elem&) {});
+      if (got) dsched::fail("sequential", "try_pop succeeded after clear()");
+      dsched::label("epilogue_clear");
+    } else if (how == 2) {
+      Queue other(1);
+      other.swap(q);
+      if (q.capacity() != 1 || q.size() != 0 || other.size() != k || other.capacity() != world.cap)
+        dsched::fail("sequential", "swap: sizes/capacities wrong (this %zu/%zu other %zu/%zu)", q.size(), q.capacity(), other.size(), other.capacity());
+      for (size_t i = 0; i < k; i++) {
+        uint64_t id = 0;
+        if (!other.try_pop<false, false>([&](Elem& e) { id = drain(e); }) || id != 0x7000000 + i)
+          dsched::fail("sequential", "after swap element %zu came out as %lx", i, (unsigned long)id);
+      }
+      other.swap(q);
+      dsched::label("epilogue_swap");
+    } else if (how == 3) {
+      size_t ncap = (size_t)c.range(1, 9);
+      size_t got = q.reserve_and_clear(ncap);
+      size_t want = 1;
+      while (want < ncap) want <<= 1;
+      if (got != want || q.capacity() != want || q.size() != 0)
+        dsched::fail("sequential", "reserve_and_clear(%zu) -> %zu, capacity %zu size %zu", ncap, got, q.capacity(), q.size());
+      for (size_t i = 0; i < want; i++)
+        if (!q.try_push<false, false>([&](Elem& e) { fill(e, 0x7100000 + i); })) dsched::fail("sequential", "try_push %zu failed on a cleared queue of capacity %zu", i, want);
+      if (q.try_push<false, false>([&](Elem&) {})) dsched::fail("sequential", "try_push succeeded on a full queue");
+      for (size_t i = 0; i < want; i++) {
+        uint64_t id = 0;
+        if (!q.try_pop<false, false>([&](Elem& e) { id = drain(e); }) || id != 0x7100000 + i)
+          dsched::fail("sequential", "after reserve_and_clear element %zu came out as %lx", i, (unsigned long)id);
+      }
+      dsched::label("epilogue_reserve");
+    } else {
+      for (size_t i = 0; i < k; i++) {
+        uint64_t id = 0;
+        if (!q.try_pop<false, false>([&](Elem& e) { id = drain(e); }) || id != 0x7000000 + i)
+          dsched::fail("sequential", "sequential FIFO broken: element %zu came out as %lx", i, (unsigned long)id);
+      }
+      if (q.try_pop<false, false>([&](Elem&) {})) dsched::fail("sequential", "try_pop succeeded on an empty queue");
+    }
+  }
 
   // (1) multiset equality
   std::map<uint64_t, int> bal;
